@@ -266,3 +266,34 @@ func vh_C16_unicode_Q() {
 	symxAssert(len(frees) == 1 && frees[0].Value == desc, "C16.free-text-value")
 	symxAssert(holder.GetDescription() == desc, "C16.entity-description")
 }
+
+// malformed JSON5 is reported as an error, never silently dropped or accepted in part
+func vh_C16_malformed_json5_Q() {
+	bad := []string{`{a:1} }`, `{a:}`, `{a:1,,}`, `{a:1} {b:2}`, `{"a":1 "b":2}`, `{a:[1,}`, `{a:1}}`, `{s:"x}`, `{a:1} oops {}`}
+	good := []string{`{a:1}`, `{ a : [1, 2], }`, `{s:'single'}`}
+	isBad := symxBool("malformed")
+	var props string
+	if isBad {
+		props = bad[symxChoice("bad", len(bad))]
+	} else {
+		props = good[symxChoice("good", len(good))]
+	}
+	text := "// @Name(v, " + props + ")"
+	if symxBool("desc") {
+		text += " text"
+	}
+	block := gast.CommentBlock{FileName: "f.go", Comments: []gast.CommentNode{
+		{Text: text, Index: 0, Position: gast.CommentPosition{StartLine: 1, EndLine: 1, StartCol: 0, EndCol: len(text)}}}}
+	holder, err := NewAnnotationHolder(block, CommentSourceRoute)
+	if isBad {
+		symxCover("C16.malformed.bad")
+		// either the line is not an annotation at all (kept as free text) or it is reported: never an attribute with
+		// part of the properties
+		if err == nil {
+			symxAssert(len(holder.Attributes()) == 0, "C16.malformed-json5-is-never-accepted-in-part")
+		}
+	} else {
+		symxCover("C16.malformed.good")
+		symxAssert(err == nil && len(holder.Attributes()) == 1, "C16.wellformed-lines-parse-without-error")
+	}
+}
